@@ -305,7 +305,7 @@ def generate_sum_weighted_bits_efficient(
     out_0, ..., out_{m - 1} with the main property inp_0 * 2^{w_0} + ...
     inp_{n - 1} * 2^{w_{n - 1}} = out_0 * 2^{out_w_0} + ... + out_{m - 1} * 2^{out_w{m - 1}}.
     This function will find circuit with minimum possible m. Number of gates
-    will be not more than 4.5 * n - 2 * m in xaig and 7 * n - 3 * m in aig.
+    will be not more than 5 * n - 2 * m in xaig and 7 * n - 3 * m in aig.
 
     :param weights: list of weights to be created and summed after. i-th input is
     correspond to i-th number from the list.
@@ -616,7 +616,7 @@ def add_sum_n_weighted_bits(
     inp_0 * 2^{w_0} + ... + inp_{n - 1} * 2^{w_{n - 1}} =
     = out_0 * 2^{out_w_0} + ... + out_{m - 1} * 2^{out_w{m - 1}}.
     This function will find circuit with minimum possible m. Number of gates
-    will be not more than 4.5 * n - 2 * m in xaig and 7 * n - 3 * m in aig.
+    will be not more than 5 * n - 2 * m in xaig and 7 * n - 3 * m in aig.
 
     :param circuit: The general circuit.
     :param input_labels_with_pow: List of pairs with format (power, label) to be added.
